@@ -203,6 +203,8 @@ func UpdateSideChain(native *native.NativeService) ([]byte, error) {
 	if err != nil {
 		return utils.BYTE_FALSE, fmt.Errorf("UpdateSideChain, putUpdateSideChain error: %v", err)
 	}
+	//approvals given for a replaced update request must not count for this one
+	node_manager.ClearConsensusSigns(native, APPROVE_UPDATE_SIDE_CHAIN, utils.GetUint64Bytes(params.ChainId))
 	native.AddNotify(
 		&event.NotifyEventInfo{
 			ContractAddress: utils.NodeManagerContractAddress,
